@@ -16,6 +16,7 @@ import Hts.Model.Index
 import Hts.Model.Csi
 import Hts.Model.Tabix
 import Hts.Model.IndexIO
+import Hts.Model.Coord
 namespace Hts.Drv.C04
 open Hts.Drv Hts.Model Hts.Model.Index Hts.Model.IndexIO
 
@@ -103,16 +104,16 @@ def addOne (st : St) (r : GRec) : St × AddRes :=
   let c : Chunk := ⟨r.cb, r.ce⟩
   match st with
   | .bai i =>
-    let x := Bai.add Local.binFor i
+    let x := Bai.add Coord.binFor i
       { hasRef := decide (r.rid ≥ 0), rid := r.rid, pos := r.start, stop := r.stop,
         unmapped := !r.mapped, mateUnmapped := r.mateUnm, chunk := c }
     (.bai x.1, x.2)
   | .csi i =>
-    let x := Csi.add Local.reg2bin i
+    let x := Csi.add Coord.reg2bin i
       { rid := r.rid, start := r.start, stop := r.stop, chunk := c, placed := r.placed, mapped := r.mapped }
     (.csi x.1, x.2)
   | .tbx t pool =>
-    let x := Tabix.add Local.binFor t
+    let x := Tabix.add Coord.binFor t
       { name := poolName pool r.rid, start := r.start, stop := r.stop, chunk := c, placed := r.placed, mapped := r.mapped }
     (.tbx x.1 pool, x.2)
 
@@ -168,11 +169,11 @@ def qerrText : QErr → String
 def answer (st : St) (q : Int × Int × Int) : String :=
   let (rid, b, e) := q
   match st with
-  | .bai i => match Bai.chunks Local.overlappingBinsFor Local.adjacent i rid b e with
+  | .bai i => match Bai.chunks Coord.overlappingBinsFor Local.adjacent i rid b e with
     | .ok cs => chunksText cs
     | .error x => qerrText x
-  | .csi i => chunksText (Csi.chunks Local.reg2bins Local.adjacent i rid b e)
-  | .tbx t pool => match Tabix.chunks Local.overlappingBinsFor Local.adjacent t (poolName pool rid) b e with
+  | .csi i => chunksText (Csi.chunks Coord.reg2bins Local.adjacent i rid b e)
+  | .tbx t pool => match Tabix.chunks Coord.overlappingBinsFor Local.adjacent t (poolName pool rid) b e with
     | .ok cs => chunksText cs
     | .error x => qerrText x
 
